@@ -11,6 +11,7 @@ from pv import framing, gen, model
 from pv.core import Fail, HarnessError, Res, Sub
 from pv.checks.c03 import compare
 from pv.checks.c04 import mutate
+from pv.checks.c10 import renumber
 
 PROPERTY = "C13"
 RULE = (
@@ -107,6 +108,11 @@ def check_result(payload, lm, res, how, step):
         m = _M()
         m.__dict__.update(dict(res[1]))
         compare(payload, w, m, "history")
+        if ident in MSM_IDS:
+            # derived labels are a function of these bytes too (pinned tables, C09's reference decoder)
+            from pv.checks.c09 import check_msm
+
+            check_msm(ident, payload, m, lm, "history-msm")
 
 
 def o_history(case):
@@ -183,7 +189,15 @@ def s_history(draw, tier):
     nitems = draw(st.integers(2, 6))
     items = [draw(gen.any_message("small")) for _ in range(nitems)]
     if draw(st.booleans()):
+        items.append(draw(st.sampled_from(MSM_IDS).flatmap(lambda i: gen.messages(i, "small"))))
+    if draw(st.booleans()):
         items.append({"payload": draw(gen.unknown_payloads("small")).hex()})
+    # near-duplicates: the same body bits under a sibling identity (another MSM / IGS constellation), so that any state
+    # keyed on part of the message (masks, length, number without sub-type ...) collides
+    for it in list(items):
+        sib = sibling(it.get("ident"), draw(st.integers(0, 5)))
+        if sib and draw(st.integers(0, 2)) != 0:
+            items.append({"payload": renumber(bytes.fromhex(it["payload"]), sib).hex(), "ident": sib})
     op = st.fixed_dictionaries(
         {
             "i": st.integers(0, 20),
@@ -199,6 +213,23 @@ def s_history(draw, tier):
     extra = draw(st.lists(st.integers(0, len(ops) - 1), min_size=0, max_size=10))
     ops = ops + [dict(ops[k]) for k in extra]
     return {"items": items, "ops": ops, "qoe": draw(st.sampled_from([0, 1]))}
+
+
+MSM_IDS = [str(1070 + 10 * c + l) for c in range(7) for l in range(1, 8)]
+
+
+def sibling(ident, k):
+    """another identity with the same layout: MSM level under another constellation, IGS sub-type under another constellation"""
+    if not ident:
+        return None
+    if ident.startswith("4076_") and ident != "4076_201":
+        sub = int(ident[5:])
+        bases = [b for b in (20, 40, 60, 80, 100, 120) if b != sub - sub % 20]
+        return f"4076_{bases[k % len(bases)] + sub % 20:03d}"
+    if ident.isdigit() and 1071 <= int(ident) <= 1137 and 1 <= int(ident) % 10 <= 7:
+        cs = [c for c in range(7) if c != (int(ident) - 1070) // 10]
+        return str(1070 + 10 * cs[k % len(cs)] + int(ident) % 10)
+    return None
 
 
 # ------------------------------------------------------------------ schedules
@@ -258,9 +289,15 @@ def s_sched(draw, tier):
                 "b": draw(st.integers(0, 5000)),
             }
         )
-    if draw(st.booleans()):
+    k = draw(st.integers(0, 3))
+    if k == 0:
         # same identity twice: shared per-identity state would collide
         jobs[1] = dict(jobs[0], lm=3 - jobs[0]["lm"])
+    elif k == 1:
+        c = draw(st.sampled_from(MSM_IDS).flatmap(lambda i: gen.messages(i, "small")))
+        sib = sibling(c["ident"], draw(st.integers(0, 5)))
+        jobs[0] = dict(jobs[0], payload=c["payload"], mut=None)
+        jobs[1] = dict(jobs[1], payload=renumber(bytes.fromhex(c["payload"]), sib).hex(), mut=None)
     choices = draw(st.lists(st.tuples(st.integers(0, 3), st.one_of(st.integers(1, 4), st.integers(1, 40))), min_size=1, max_size=60))
     return {"jobs": jobs, "choices": [list(c) for c in choices]}
 
